@@ -65,6 +65,18 @@ def one(job):
     except Exception as e:  # noqa: BLE001
         return {"status": "crash", "message": f"{type(e).__name__}: {e}", "trace": traceback.format_exc()[-600:]}
     res = {"status": "ok", "xform": r.xform, "warnings": list(r.warnings), "itemsets": r.itemsets}
+    # the caller's workbook object is part of "state left behind": it must come back as it went in, and a second conversion of the
+    # very same object must say the same
+    res["input_unchanged"] = wb == job["wb"]
+    if job.get("twice"):
+        try:
+            r2 = convert(wb, pretty_print=bool(job.get("pretty")), **(job.get("args") or {}))
+            res["second_same"] = (r2.xform, list(r2.warnings), r2.itemsets) == (r.xform, list(r.warnings), r.itemsets)
+            if not res["second_same"]:
+                res["second"] = {"warnings": list(r2.warnings), "xform_same": r2.xform == r.xform}
+        except Exception as e:  # noqa: BLE001
+            res["second_same"] = False
+            res["second"] = {"error": f"{type(e).__name__}: {e}"[:300]}
     k = int(job.get("regen") or 0)
     if k:
         again = []
